@@ -114,6 +114,50 @@ Theorem C08_extends_clause_env (root : list cdef) (f : nat) (c : cdef) (lex : pa
 Proof. exact (flatten_extends_clause_env root f c lex menv bases). Qed.
 Print Assumptions C08_extends_clause_env.
 
+(* C08_extends_leaf_attributes_partial — build_leaf_list at the attribute level.  (1) One step of build_syms on an
+   elementary symbol (tree.py:449-497) puts on the leaf the declaration's own arguments followed by the converted
+   arguments of the environment that name it, in environment order — with C08_extends_clause_env the environment
+   is  clause modifiers ++ incoming,  so the list is  decl ++ clause part ++ incoming part.  (2) For such a list
+   (arguments in canonical spelling aimed at the leaf, each source naming an attribute at most once) setattr in
+   list order leaves, for EVERY attribute, exactly what the specification looks up in
+   sub_mods n (incoming ++ clause entries) ++ declaration entries:  the incoming (outer) environment wins over
+   the extends clause, the clause over the base's declaration; the same statement with `clause := []` is the
+   depth-1 component modification  B b(x(start = 1)).   MISSING for the whole-library C08_refines: that
+   modify_symbol, which applies the scoped (incoming) arguments at the enclosing class's level and the others at
+   the leaf's level, realises this list order across levels, and that the renaming done at each level resolves every
+   expression in the instance that wrote it (false for the recorded scope finding, C08_scope_refuted). *)
+Theorem C08_extends_leaf_attributes_partial :
+  (forall root late rec ebi me myref s ss menv acc,
+      mem_id (head_id (s_type s)) BUILTIN = true -> s_name s <> iValueSym ->
+      build_syms root late rec ebi me myref (s :: ss) menv [] acc =
+      build_syms root late rec ebi me myref ss (filter (fun a => negb (targets (s_name s) a)) menv) []
+        (ISym (s_name s) (s_prefixes s) (s_dims s) (TyElem (s_type s))
+              (s_mods s ++ flat_map to_symbol_mods (filter (targets (s_name s)) menv)) :: acc)) /\
+  (forall env n a decl clause incoming r,
+      Forall (fun m => m_target m = [n]) clause -> Forall (fun m => m_target m = [n]) incoming ->
+      Forall simple_arg1 decl -> Forall simple_arg1 (flat_map to_symbol_mods clause) ->
+      Forall simple_arg1 (flat_map to_symbol_mods incoming) ->
+      uniq decl -> uniq (flat_map to_symbol_mods clause) -> uniq (flat_map to_symbol_mods incoming) ->
+      apply_args (decl ++ flat_map to_symbol_mods clause ++ flat_map to_symbol_mods incoming) [] = Ok r ->
+      get_attr a r =
+      option_map entry_expr
+        (attr_lookup a (sub_mods n (flat_args env incoming ++ flat_args env clause) ++ flat_args env decl))).
+Proof. exact (conj build_syms_leaf_list extends_leaf_attributes). Qed.
+Print Assumptions C08_extends_leaf_attributes_partial.
+
+(* satisfiable and non-trivial: base declares x(start = 1, min = 0); the clause says x(start = 5); the enclosing
+   component says x(start = 7) = 8: start = 7 (incoming over clause over declaration), min = 0, value = 8 *)
+Example C08_extends_leaf_attributes_example :
+  let decl := [MArg None [aStart] [MExpr (ENum 1)]; MArg None [aMin] [MExpr (ENum 0)]] in
+  let clause := [MArg None [40%positive] [MClass [MArg None [aStart] [MExpr (ENum 5)]]]] in
+  let incoming := [MArg (Some [41%positive]) [40%positive] [MClass [MArg None [aStart] [MExpr (ENum 7)]]; MExpr (ENum 8)]] in
+  exists r, apply_args (decl ++ flat_map to_symbol_mods clause ++ flat_map to_symbol_mods incoming) [] = Ok r /\
+    get_attr aStart r = Some (ENum 7) /\ get_attr aMin r = Some (ENum 0) /\ get_attr aValue r = Some (ENum 8) /\
+    option_map entry_expr (attr_lookup aStart (sub_mods 40%positive (flat_args None incoming ++ flat_args None clause)
+                                                ++ flat_args None decl)) = Some (ENum 7).
+Proof. eexists. split; [vm_compute; reflexivity | repeat split; reflexivity]. Qed.
+Print Assumptions C08_extends_leaf_attributes_example.
+
 (* recorded defect: model C Real x; end C; model B C c; end B; model M B b(<m>); end M;
    <m> = c.x(start = 3) sets start;  <m> = c.x.start = 3 becomes the equation b.c.x = 3 and leaves start
    unset; both are accepted;  <m> = c(x(start = 3)) is rejected *)
